@@ -11,7 +11,8 @@ RULE = ("ThompsonSampling alone and under Radius, KNearest, LSHNearest, Clusters
         "flip (1 - r on {0,1}); one bandit in four starts without a binarizer and receives its first one through add_arm; "
         "n_jobs in {1,2,3,-1} (threading); small integer and half-integer rewards; histories of fit, partial_fit, add_arm(arm, "
         "new binarizer) followed by partial_fit, remove_arm, queries, and partial_fit calls in which the binarizer raises on one "
-        "reward (the call fails; the twin skips it). Twin: ThompsonSampling() without binarizer, same "
+        "reward (the call fails; the twin skips it), and late feedback (rows whose decision is an arm removed earlier - "
+        "accepted by the library, stored by neighbourhood policies, effective again once the arm is added back). Twin: ThompsonSampling() without binarizer, same "
         "seed and neighbourhood policy, fed int(binarizer(decision, reward)) computed with the binarizer current at the "
         "time of each observation, same calls. predict_expectations and predict must be identical. Non-trivial: the "
         "binarizer changes at least one of the values {0,1} for some arm, and at least one reward converts to 1.")
@@ -83,7 +84,7 @@ def plan_st(draw, tier, ctx=None):
             h.partial_fit(omit=False)
     for _ in range(draw(st.integers(1, 8 if tier == "quick" else 14))):
         k = draw(st.sampled_from(["partial_fit", "partial_fit", "fit", "add_arm", "add_arm_b", "remove_arm", "query",
-                                  "query", "partial_fit_poisoned"]))
+                                  "query", "partial_fit_poisoned", "partial_fit_late_feedback"]))
         if k == "partial_fit_poisoned":
             if h.binarizer_now and h.fitted:
                 # the binarizer raises on one reward of the batch: the call fails, what was stored before stays
@@ -94,6 +95,17 @@ def plan_st(draw, tier, ctx=None):
                 h.ops.append(["partial_fit_poisoned", dec, rew, cx])
                 if draw(st.booleans()):
                     h.query()
+        elif k == "partial_fit_late_feedback":
+            gone = [a for a in h.removed if a not in h.arms]
+            if gone and h.fitted:
+                # feedback that arrives for an arm after it was removed (the library accepts such rows; a neighbourhood
+                # policy stores them, and they count again if the arm is added back): their rewards are rewards too
+                dec, rew, cx = h.batch()
+                dec = list(dec)
+                for pos in draw(st.lists(st.integers(0, len(dec) - 1), min_size=1, max_size=len(dec), unique=True)):
+                    dec[pos] = draw(st.sampled_from(gone))
+                h.ops.append(["partial_fit", dec, list(rew), cx])
+                h.rows += len(dec)
         elif k == "add_arm_b":
             if h.can_add():
                 h.add_arm(draw_binarizer(draw, h.arms, npn, ctx, gen.POOLS[kind]))
